@@ -62,10 +62,23 @@ def histories(run, drv, n_hist, n_events, scratch):
             run.corr("history", {"history": hno, "events": [H.ev_sx6(e, addr_of) for e in evs]}, "n/a", str(model)[:200])
             continue
         ok_all = True
-        for k, (ev, (what, ia), ma) in enumerate(zip(evs, answers, model)):
+        prev_sizes = []
+        for k, (ev, ans, ma) in enumerate(zip(evs, answers, model)):
+            what, ia = ans[0], ans[1]
             case = {"history": hno, "step": k, "event": H.ev_sx6(ev, addr_of), "prefix": [H.ev_sx6(e, addr_of) for e in evs[:k + 1]]}
             run.case(("hist6", hno, k), nontrivial=True)
-            run.count("event.kind", ev[0])
+            run.count("event.kind", ev[0] if ev[0] != "attr" else "attr:" + ev[5])
+            # ---- the caches the model resets at an assignment accepted under lock must be empty on the real objects
+            sizes = ma[2] if isinstance(ma, list) and len(ma) > 2 else None
+            if sizes is not None:
+                if ev[0] in ("attr", "mmap", "rebind"):
+                    real = set(ans[2])
+                    left = [j for j, n in enumerate(sizes) if n == 0 and j < len(prev_sizes) and prev_sizes[j] > 0 and j in real]
+                    if left:
+                        run.oracle_fail("erase", case, f"the model resets the memoised reads of object(s) {left} at this assignment; the real object(s) still hold entries", f"not-erased:{ev[0]}")
+                    else:
+                        run.oracle_ok("erase")
+                prev_sizes = sizes
             if what == "read":
                 run.count("read.kind", ia["kind"].split(":")[0])
                 run.count("read.method", ev[2])
@@ -125,7 +138,8 @@ def replay(run, drv, scratch):
         if not evs_t:
             continue
         evs, rows, model, addr_of = H.replay_events6(drv, evs_t, scratch / ("replay_" + Path(f).stem))
-        for k, (ev, (what, ia), ma) in enumerate(zip(evs, rows, model)):
+        for k, (ev, row, ma) in enumerate(zip(evs, rows, model)):
+            what, ia = row[0], row[1]
             case = {"file": Path(f).name, "step": k, "event": evs_t[k], "prefix": evs_t[:k + 1]}
             run.case(("replay6", Path(f).name, k))
             if what == "read":
@@ -281,17 +295,26 @@ def scenarios(run, drv, scratch):
     check("scenario", "td.lock_(); td.flatten_keys(); td.batch_size = [2]; td.flatten_keys()    (also on a nested node of a member of a locked stack)",
           "batch-size-under-lock", lambda: all_reads(root, root.get("n"), L, *L.tensordicts))
 
-    # (e5m) metadata in the model = a reserved pseudo-leaf of the node: a metadata assignment under lock is a `rebind` of it, so `rebind_preserves`
-    #       (coherence is kept iff the write erases up) is the model statement; real side: the read on the root misses, then hits
+    # (e5m) metadata assignments are first-class model events (`CEv.setAttr`, theorem `attr_preserves`): names on a nested node (the setter
+    #       walks the whole subtree), device on the nested node, batch size on the root -- real (miss, miss, hit, miss, miss) vs model
     kinds = []
     M.CALLBACK = lambda ev: kinds.append("hit" if ev["hit"] else ("miss" if ev["stored"] else "bypass"))
     root = TensorDict({"a": torch.zeros(2, 3), "n": TensorDict({"x": torch.zeros(2, 3)}, [2, 3])}, [2, 3]).lock_()
     root._values_list(True, False); root.get("n").names = ["u", "v"]; root._values_list(True, False); root._values_list(True, False)
     root.get("n").clear_device_(); root._values_list(True, False); root.batch_size = [2]; root._values_list(True, False)
     M.CALLBACK = cb
-    model = parse_sx(drv.ask("(c06.run (ctor () ((x 100 0) (meta 150 0)) false) (ctor ((n 0)) ((a 101 0) (meta 151 0)) true) (read 1 1 1 0) (rebind 0 meta 200) (read 1 1 1 0) (read 1 1 1 0) "
-                             "(rebind 0 meta 201) (read 1 1 1 0) (rebind 1 meta 202) (read 1 1 1 0))"))
-    run.corr("scenario", "metadata-as-binding", kinds, [model[2][0], model[4][0], model[5][0], model[7][0], model[9][0]])
+    model = parse_sx(drv.ask("(c06.run (ctor () ((x 100 0)) false) (ctor ((n 0)) ((a 101 0)) true) (read 1 1 1 0) (attr 0 0 200 99) (read 1 1 1 0) (read 1 1 1 0) "
+                             "(attr 0 2 201 99) (read 1 1 1 0) (attr 1 1 202 0) (read 1 1 1 0))"))
+    run.corr("scenario", "metadata-events", kinds, [model[2][0], model[4][0], model[5][0], model[7][0], model[9][0]])
+    # the same for `memmap_` moved to another directory (`CEv.memmap`, theorem `memmap_preserves`)
+    kinds = []
+    M.CALLBACK = lambda ev: kinds.append("hit" if ev["hit"] else ("miss" if ev["stored"] else "bypass"))
+    td = T({"a": torch.zeros(2), "b": T({"c": torch.ones(2)})}); td.memmap_(str(scratch / "mm5"))
+    td._values_list(True, True); td._values_list(True, True); td.get("b").memmap_(str(scratch / "mm6"), copy_existing=True); td._values_list(True, True)
+    M.CALLBACK = cb
+    model = parse_sx(drv.ask("(c06.run (ctor () ((c 100 0)) false) (ctor ((b 0)) ((a 101 0)) false) (mmap 1 ((1 a 102) (0 c 103))) (read 1 1 1 1) (read 1 1 1 1) "
+                             "(mmap 0 ((0 c 104))) (read 1 1 1 1))"))
+    run.corr("scenario", "memmap-events", kinds, [model[3][0], model[4][0], model[6][0]])
 
     # (e7) a *refused* names assignment on a nested lazy stack must leave nothing behind (the stack dim used to stay renamed, unseen by the holders)
     root = TensorDict({"l": LazyStackedTensorDict(*members(), stack_dim=0), "z": torch.zeros(2, 3)}, [2, 3]).lock_()
@@ -416,7 +439,9 @@ def scenarios(run, drv, scratch):
 def main():
     run = Run("C06")
     run.rule = ("histories: the C05 event machine (constructors over shared nodes, lazy stacks, lock_/unlock_, context managers, gc, guarded mutators, in-place writes) "
-                "+ memoised reads (7 methods, by-value and by-address arguments) + rebinding non-tensor writes, every event a case; each read is observed by the monitor "
+                "+ memoised reads (10 methods incl. the torch.vmap memo `_add_batch_dim(in_dim, level)` and detach; by-value and by-address arguments) + rebinding non-tensor writes "
+                "+ metadata assignments under lock (names to the whole subtree, names=None, batch size, device) + memmap_ to a new directory (copy_existing) on locked / memory-mapped trees, "
+                "every event a case; after each assignment accepted under lock the caches the model resets must be empty on the real objects; each read is observed by the monitor "
                 "(bypass/miss/hit, result) and repeated on an unlocked twin; scenarios: one per witness theorem; a case is non-trivial if it is a distinct (history, step) or scenario")
     run.trusted += [
         "Model/C06Cache.lean: hand transcription of utils.cache / _make_cache_key / erase_cache / _erase_cache_up over the C05 heap model; memoised methods abstracted as functions of the bindings (parameters of the theorems); validated each run by the read correspondence (bypass/miss/hit and result) on random histories",
@@ -425,7 +450,8 @@ def main():
     ]
     run.assumptions += [
         "memoised results are functions of the bindings (key paths, identity of bound objects); dtype/shape-valued reads (bytes, param_count, _dtype, vmap helpers) are only covered by the monitor and the scenarios",
-        "storage conversions (memmap_, share_memory_) and pickling are outside the C06 model (their cache invalidation is checked by scenarios on the real code)",
+        "share_memory_ and pickling are outside the C06 model (scenarios / fuzz on the real code); memmap_ is modelled as: every tensor leaf below is rebound to a new object, then the C05 lock step",
+        "metadata (dimension names, batch size, device) is modelled as attributes of the node that any memoised read may depend on; their values are abstract (the model never predicts a names list), so the correspondence of a metadata event is on hit/miss/bypass, cache resets and bindings, and the staleness of attribute-carrying results is decided by the monitor",
         "by-address arguments: equal key implies equal computation only while the arguments are alive (by_address_args_immortal); the recycling scenario is run on the real code",
     ]
     regen(run)
